@@ -50,6 +50,15 @@ pub enum JsonLdError {
     #[error("error while expanding: {0}")]
     ExpandError(String),
 
+    /// The base IRI (or document IRI) is not supported by the underlying JSON-LD processor
+    #[error("base IRI <{iri}> is not supported by the JSON-LD processor: {error}")]
+    UnsupportedBaseIri {
+        /// The IRI that was refused
+        iri: String,
+        /// The error of the JSON-LD processor's IRI parser
+        error: iref::Error,
+    },
+
     /// An UTF-8 error was encountered while parsing from a [`BufRead`](std::io::BufRead)
     #[error("{0}")]
     Utf8(#[from] std::string::FromUtf8Error),
